@@ -723,6 +723,10 @@ func genC07(r *RNG, tier string, run int) *Trace {
 		t.Ops = []Op{{K: "Parse"}}
 		return t
 	}
+	if run%797 == 5 {
+		// windows of 1 MiB and more, a first literal run of 1 MiB and more
+		return genDecoderTrace(r, dgen{target: "decoder", nOps: 20, sizes: "fit", readBias: 3, resetW: 1, geomClass: "mega"})
+	}
 	if run%4 == 3 {
 		// synthetic well-formed streams straight into a Decoder
 		g := dgen{target: "decoder", nOps: 25, sizes: "fit", readBias: 3, resetW: 1}
